@@ -5,6 +5,7 @@ import PenneModel.Place.Syntax
 import PenneModel.Scope.Vars
 import PenneModel.Lex.Model
 import PenneModel.Lit.Model
+import PenneModel.Sem.Parse
 /-
   Model driver: one request per line on stdin (`OP<TAB>payload`), one answer per line on stdout.
   Only model files are imported (no Mathlib, no proof files), so this links as a native executable.
@@ -107,6 +108,12 @@ def handle (op payload : String) : String :=
         "codes=" ++ showCodes (sortNat (Vars.goFunction cs ps b)) ++ " labels=" ++ showCodes (sortNat (Labels.goBody b))
       | _, _, _ => "bad-request"
     | _ => "bad-request"
+  | "run" =>
+    match Sexp.parse payload with
+    | some sx => match Sem.progOf sx with
+      | some p => Sem.showResult (Sem.run p 200000)
+      | none => "bad-program"
+    | none => "bad-request"
   | "C09" => c09 payload
   | "lex" =>
     match Sexp.parse payload with
